@@ -21,6 +21,7 @@ def gen(rng):
     cn_units = rng.choice(['volt', 'cu'])              # units of the constant C: 'cu' is used by that cn element only
     clash_comp = rng.choice([None, 'mid', 'leafA', 'leafB', 'm1'])
     units_from = rng.choice(['local', 'local', 'imported'])
+    nown = rng.choice([0, 0, 1, 2, 3])                 # components of the importing model encapsulated in the first instance
     # library
     lib = HEAD % 'modlib'
     if units_from == 'imported':
@@ -74,8 +75,12 @@ def gen(rng):
         clash_name = clash_comp if clash_comp != 'm1' else None
         if clash_name:
             o += '  <component name="%s">\n    <variable name="zz" units="ms" interface="public" initial_value="9"/>\n  </component>\n' % clash_name
+    for j in range(nown):
+        o += '  <component name="own%d">\n    <variable name="zz" units="ms" interface="public" initial_value="%d"/>\n  </component>\n' % (j, 20 + j)
     for i, m in enumerate(inst):
         o += '  <connection component_1="main" component_2="%s"><map_variables variable_1="a%d" variable_2="a_in"/><map_variables variable_1="y%d" variable_2="y"/></connection>\n' % (m, i + 1, i + 1)
+    if nown:
+        o += '  <encapsulation><component_ref component="m1">%s</component_ref></encapsulation>\n' % ''.join('<component_ref component="own%d"/>' % j for j in range(nown))
     o += '</model>\n'
     files['origin.cellml'] = o
     y = [K * a + Cc for a in A]
@@ -87,6 +92,9 @@ def gen(rng):
              'leafB.src': sorted(K * a for a in A), 'leafB.v': sorted(y)}
     if mid:
         multi['mid.a'] = sorted(1000 * a for a in A); multi['mid.v'] = sorted(1000 * v for v in y)
-    ncomp = 1 + n * (3 + (1 if mid else 0)) + (1 if clash_name else 0)
+    ncomp = 1 + n * (3 + (1 if mid else 0)) + (1 if clash_name else 0) + nown
+    for j in range(nown):
+        multi['own%d.zz' % j] = [20.0 + j]
     return dict(files=files, origin='origin.cellml', n=n, depth=depth, expect=expect, multi=multi, ncomp=ncomp,
-                opts=dict(mv=mv, cn_units=cn_units, clash_comp=clash_comp, units_from=units_from, K=K, C=Cc, A=A))
+                nown=nown,
+                opts=dict(mv=mv, cn_units=cn_units, clash_comp=clash_comp, units_from=units_from, K=K, C=Cc, A=A, nown=nown))
